@@ -61,7 +61,7 @@ def accepted_runs(prop, files, args, expect_started, why, cwd=None):
 OUT = [{"paths": ["o.txt"]}]
 
 
-def cases(seed):
+def cases(seed, tier="quick"):
     C = lambda n, fn, what: Case("config", n, fn, what)
     out = []
     # ---- C09: broken graphs ---------------------------------------------------------------------------
